@@ -298,6 +298,7 @@ func cmdGen(args []string) int {
 	defer bw.Flush()
 	rng := rand.New(rand.NewSource(int64(*seed)))
 	for i := 0; i < *num; i++ {
+		genIdx = int(*seed%1000)**num + i
 		sc := genSchedule(rng, *family, *depth)
 		sc.ID = fmt.Sprintf("%s-%d-%d", *family, *seed, i)
 		sc.Seed = *seed*1000003 + uint64(i) + 1
@@ -307,6 +308,10 @@ func cmdGen(args []string) int {
 	}
 	return 0
 }
+
+// genIdx is the position of the schedule being generated among all shards of one family run
+// (the shard number is the seed modulo 1000); systematic families enumerate by it.
+var genIdx int
 
 func genSchedule(rng *rand.Rand, family string, depth int) *Schedule {
 	sc := &Schedule{Pol: map[string]int{}, Ver: map[string]int{}, Frag: map[string]int{}}
@@ -400,6 +405,36 @@ func genSchedule(rng *rand.Rand, family string, depth int) *Schedule {
 			if rng.Intn(6) == 0 {
 				add(Step{A: "SMPAnswer", P: ps[rng.Intn(2)], S: s1})
 			}
+		}
+		return sc
+	case "smpdeg":
+		// systematic: an authenticated SMP message 2 whose group elements are degenerate but whose
+		// proofs are consistent (Pb or Qb not invertible, written as 0 or as the modulus), under both
+		// protocol versions and for either initiator; then an honest run that must succeed
+		sc.Setup, sc.Fam = "ake", "smpdev"
+		sc.Frag = map[string]int{}
+		sc.Pol["A"], sc.Pol["B"] = 1, 1
+		if genIdx%2 == 1 {
+			sc.Pol["A"], sc.Pol["B"] = 3, 3
+		}
+		ini, oth := "A", "B"
+		if (genIdx/8)%2 == 1 {
+			ini, oth = "B", "A"
+		}
+		add(Step{A: "SMPStart", P: ini, S: 1, Q: (genIdx/16)%2 == 1})
+		add(Step{A: "Deliver", P: oth})
+		add(Step{A: "SMPAnswer", P: oth, S: 1})
+		add(Step{A: "SMPTamper", P: ini, I: 3 + 7*((genIdx/2)%4)})
+		for k := 0; k < 3; k++ {
+			add(Step{A: "Deliver", P: "A"})
+			add(Step{A: "Deliver", P: "B"})
+		}
+		add(Step{A: "SMPStart", P: oth, S: 5})
+		add(Step{A: "Deliver", P: ini})
+		add(Step{A: "SMPAnswer", P: ini, S: 5})
+		for k := 0; k < 3; k++ {
+			add(Step{A: "Deliver", P: "A"})
+			add(Step{A: "Deliver", P: "B"})
 		}
 		return sc
 	case "smpdev":
